@@ -427,7 +427,7 @@ def shared_run(seed, tier, log=print):
         for k, (prog, text) in enumerate(plan_gen.directed_temporal()):
             cases.append(("tl-directed-%d" % k, prog, text, {"directed_temporal": 1}, "tl_directed"))
         for fam, gen in (("bd", plan_gen.directed_boundary), ("hier", plan_gen.directed_hierarchy), ("chain", plan_gen.directed_chain),
-                         ("narrow", plan_gen.directed_narrowing), ("both", plan_gen.directed_both)):
+                         ("narrow", plan_gen.directed_narrowing), ("both", plan_gen.directed_both), ("enums", plan_gen.directed_enums)):
             for k, (prog, text) in enumerate(gen()):
                 cases.append(("%s-%d" % (fam, k), prog, text, {"directed_" + fam: 1}, fam))
         for k, (prog, texts) in enumerate(plan_gen.directed_incremental()):
